@@ -99,6 +99,13 @@ pub use msg::message::{Message, MessageBuilder};
 mod message_frame;
 pub use message_frame::MessageFrame;
 
+// Verification hook (guard: --cfg rtcm_rs_verif): public re-export of the crate-private bit-level
+// codec so that counterexamples can be replayed against single fields. Off by default.
+#[cfg(rtcm_rs_verif)]
+pub mod verif_hook {
+    pub use crate::df::{assembler::Assembler, bit_value, dfs, parser::Parser};
+}
+
 pub mod prelude {
     pub use crate::rtcm_error::RtcmError;
     #[cfg(feature = "test_gen")]
